@@ -10,6 +10,9 @@
 use super::payload::{Registry, decode, make_sample};
 use rustrtc::media::error::MediaError;
 use rustrtc::media::frame::MediaKind;
+use rustrtc::media::frame::MediaSample;
+use rustrtc::media::pipeline::{SampleQueueReceiver, SampleQueueSender};
+use rustrtc::media::spsc::SpscRing;
 use rustrtc::media::track::{MediaStreamTrack, SampleStreamSource, SampleStreamTrack};
 use rustrtc::verif_hooks::media as hook;
 use std::cell::Cell;
@@ -29,6 +32,7 @@ pub enum Op {
     CloneTo(usize),
     DropSrc,
     Recv,
+    DropRecv, // pipeline.rs receiver only
     Stop,
 }
 
@@ -49,6 +53,7 @@ impl Label {
             Some(Op::CloneTo(j)) => format!("{t}:c{j}"),
             Some(Op::DropSrc) => format!("{t}:d"),
             Some(Op::Recv) => format!("{t}:r"),
+            Some(Op::DropRecv) => format!("{t}:d"),
             Some(Op::Stop) => format!("{t}:s"),
         }
     }
@@ -60,6 +65,7 @@ impl Label {
             None => None,
             Some(o) => Some(match (tid, o.chars().next()?) {
                 (Tid::Cons, 'r') => Op::Recv,
+                (Tid::Cons, 'd') => Op::DropRecv,
                 (Tid::Stop, 's') => Op::Stop,
                 (Tid::Prod(_), 's') => Op::Send(vec![o[1..].parse().ok()?]),
                 (Tid::Prod(_), 'm') => Op::Send(if o.len() == 1 { vec![] } else {
@@ -80,8 +86,19 @@ enum Ev { Yield(u32), Done(String), Pending }
 #[derive(Clone, Copy, Debug, PartialEq, Eq)]
 pub enum WState { Idle, Parked(u32), Pending }
 
+/// the pipeline.rs queue pair: one sender shared by reference between the producer threads
+struct Pipe {
+    queue: Arc<SpscRing<MediaSample>>,
+    pop_lock: Arc<parking_lot::Mutex<()>>,
+    closed: Arc<AtomicBool>,
+    sender: std::sync::Weak<SampleQueueSender>,
+    senders: Mutex<Vec<Option<Arc<SampleQueueSender>>>>,
+    receiver: Mutex<Option<SampleQueueReceiver>>,
+}
+
 struct Shared {
-    track: Arc<SampleStreamTrack>,
+    track: Option<Arc<SampleStreamTrack>>,
+    pipe: Option<Pipe>,
     reg: Arc<Registry>,
     mailbox: Mutex<Vec<Option<SampleStreamSource>>>,
     woken: AtomicBool,
@@ -120,12 +137,51 @@ fn spawn_worker(tid: Tid, sh: Arc<Shared>) -> Worker {
             }));
         }
         let mut src: Option<SampleStreamSource> = None;
+        let mut psend: Option<Arc<SampleQueueSender>> = None;
+        let mut precv: Option<SampleQueueReceiver> = None;
         loop {
             let op = match rx_cmd.recv() { Ok(Cmd::Start(op)) => op, Ok(Cmd::Free) => { free.set(true); continue; } _ => break };
             if let Tid::Prod(i) = tid {
                 if src.is_none() { src = sh.mailbox.lock().unwrap()[i].take(); }
+                if let Some(p) = &sh.pipe { if psend.is_none() { psend = p.senders.lock().unwrap()[i].take(); } }
             }
+            if let (Tid::Cons, Some(p)) = (tid, &sh.pipe) { if precv.is_none() { precv = p.receiver.lock().unwrap().take(); } }
             let res: String = match (&op, tid) {
+                (Op::Send(vs), Tid::Prod(i)) if sh.pipe.is_some() => {
+                    let s = psend.as_ref().expect("producer without sender");
+                    let mut r = "ok";
+                    for v in vs { if s.send(make_sample(&sh.reg, i as u64, *v)).is_err() { r = "cl"; break; } }
+                    r.into()
+                }
+                (Op::TrySend(v), Tid::Prod(i)) if sh.pipe.is_some() => {
+                    match psend.as_ref().expect("producer without sender").try_send(make_sample(&sh.reg, i as u64, *v)) {
+                        Ok(()) => "ok".into(), Err(_) => "err".into() }
+                }
+                (Op::DropSrc, Tid::Prod(_)) if sh.pipe.is_some() => { drop(psend.take()); "dropped".into() }
+                (Op::Recv, Tid::Cons) if sh.pipe.is_some() => {
+                    let mut rx = precv.take().expect("receiver already dropped");
+                    let mut fut: Pin<Box<dyn Future<Output = _>>> = Box::pin(async move { let r = rx.recv().await; (rx, r) });
+                    let waker = Waker::from(Arc::new(WakeFlag(sh.clone())));
+                    let mut cx = Context::from_waker(&waker);
+                    loop {
+                        match fut.as_mut().poll(&mut cx) {
+                            Poll::Ready((rx, Some(s))) => {
+                                precv = Some(rx);
+                                let d = decode(&s);
+                                let t = match &d { Ok((p, v)) => format!("v{p}.{v}"), Err(_) => "corrupt".into() };
+                                sh.received.lock().unwrap().push(d);
+                                break t;
+                            }
+                            Poll::Ready((rx, None)) => { precv = Some(rx); break "eos".into(); }
+                            Poll::Pending => {
+                                if free.get() { break "abandoned".into(); }
+                                let _ = tx_ev.send(Ev::Pending);
+                                match rx_cmd.recv() { Ok(Cmd::Step) => {}, _ => { free.set(true); break "abandoned".into(); } }
+                            }
+                        }
+                    }
+                }
+                (Op::DropRecv, Tid::Cons) if sh.pipe.is_some() => { drop(precv.take()); "dropped".into() }
                 (Op::Send(vs), Tid::Prod(i)) => {
                     let s = src.as_ref().expect("producer without handle");
                     let r = if vs.len() == 1 { s.send(make_sample(&sh.reg, i as u64, vs[0])) }
@@ -143,7 +199,7 @@ fn spawn_worker(tid: Tid, sh: Arc<Shared>) -> Worker {
                 }
                 (Op::DropSrc, Tid::Prod(_)) => { drop(src.take()); "dropped".into() }
                 (Op::Recv, Tid::Cons) => {
-                    let track = sh.track.clone();
+                    let track = sh.track.clone().expect("track backend");
                     let mut fut: Pin<Box<dyn Future<Output = _>>> = Box::pin(async move { track.recv().await });
                     let waker = Waker::from(Arc::new(WakeFlag(sh.clone())));
                     let mut cx = Context::from_waker(&waker);
@@ -164,18 +220,20 @@ fn spawn_worker(tid: Tid, sh: Arc<Shared>) -> Worker {
                         }
                     }
                 }
-                (Op::Stop, Tid::Stop) => { sh.track.stop(); "stopped".into() }
+                (Op::Stop, Tid::Stop) => { sh.track.as_ref().expect("track backend").stop(); "stopped".into() }
                 _ => "bad-op".into(),
             };
             let _ = tx_ev.send(Ev::Done(res));
         }
         drop(src);
+        drop(psend);
+        drop(precv);
         hook::remove_scheduler();
     });
     Worker { tx: tx_cmd, rx: rx_ev, state: WState::Idle, join: Some(join) }
 }
 
-pub struct Init { pub cap: usize, pub start: usize, pub nprod: usize }
+pub struct Init { pub cap: usize, pub start: usize, pub nprod: usize, pub pipe: bool }
 
 /// What the controller can tell about a thread before granting it a step.
 #[derive(Clone, Copy, Debug, PartialEq, Eq)]
@@ -191,7 +249,8 @@ pub struct Case {
     /// 0 never had, 1 has, 2 gone, 3 reserved (a clone for this thread is in progress)
     pub handle: Vec<u8>,
     clone_target: Vec<usize>,
-    push_lock: Arc<parking_lot::Mutex<()>>,
+    push_lock: Option<Arc<parking_lot::Mutex<()>>>,
+    pub recv_dropped: bool,
     pub stop_called: bool,
     pub eos_seen: bool,
     pub timeout: bool,
@@ -203,19 +262,40 @@ const STEP_TIMEOUT: Duration = Duration::from_secs(10);
 impl Case {
     pub fn new(init: Init) -> Case {
         let reg = Registry::new(4096);
-        let (source, track) = rustrtc::media::track::verif_sample_track_with_start(MediaKind::Audio, init.cap, init.start);
-        let push_lock = source.verif_push_lock();
-        let sh = Arc::new(Shared { track, reg, mailbox: Mutex::new((0..MAX_PROD).map(|_| None).collect()),
-            woken: AtomicBool::new(false), received: Mutex::new(vec![]) });
         let mut handle = vec![0u8; MAX_PROD];
-        {
-            // unscheduled set-up: `nprod` cloned handles (no scheduler is installed on this thread)
-            let mut mb = sh.mailbox.lock().unwrap();
-            for j in 1..init.nprod.min(MAX_PROD) { mb[j] = Some(source.clone()); handle[j] = 1; }
-            mb[0] = Some(source); handle[0] = 1;
-        }
+        let n = init.nprod.clamp(1, MAX_PROD);
+        let (sh, push_lock) = if init.pipe {
+            let (sender, receiver) = rustrtc::media::pipeline::verif_sample_queue_channel(init.cap);
+            let sender = Arc::new(sender);
+            let pipe = Pipe { queue: receiver.verif_queue(), pop_lock: receiver.verif_pop_lock(), closed: receiver.verif_closed_flag(),
+                sender: Arc::downgrade(&sender),
+                senders: Mutex::new((0..MAX_PROD).map(|j| if j < n { Some(sender.clone()) } else { None }).collect()),
+                receiver: Mutex::new(Some(receiver)) };
+            drop(sender);
+            for h in handle.iter_mut().take(n) { *h = 1; }
+            (Arc::new(Shared { track: None, pipe: Some(pipe), reg, mailbox: Mutex::new((0..MAX_PROD).map(|_| None).collect()),
+                woken: AtomicBool::new(false), received: Mutex::new(vec![]) }), None)
+        } else {
+            // the plain public constructor unless the run needs the ring indices to start elsewhere
+            let (source, track) = if init.start == 0 {
+                let (s, t, _fb) = rustrtc::media::track::sample_track(MediaKind::Audio, init.cap);
+                (s, t)
+            } else {
+                rustrtc::media::track::verif_sample_track_with_start(MediaKind::Audio, init.cap, init.start)
+            };
+            let push_lock = source.verif_push_lock();
+            let sh = Arc::new(Shared { track: Some(track), pipe: None, reg, mailbox: Mutex::new((0..MAX_PROD).map(|_| None).collect()),
+                woken: AtomicBool::new(false), received: Mutex::new(vec![]) });
+            {
+                // unscheduled set-up: `nprod` cloned handles (no scheduler is installed on this thread)
+                let mut mb = sh.mailbox.lock().unwrap();
+                for j in 1..n { mb[j] = Some(source.clone()); handle[j] = 1; }
+                mb[0] = Some(source); handle[0] = 1;
+            }
+            (sh, Some(push_lock))
+        };
         Case { init, sh, prods: (0..MAX_PROD).map(|_| None).collect(), cons: None, stop: None, handle,
-               clone_target: vec![0; MAX_PROD], push_lock, stop_called: false, eos_seen: false, timeout: false }
+               clone_target: vec![0; MAX_PROD], push_lock, recv_dropped: false, stop_called: false, eos_seen: false, timeout: false }
     }
 
     fn worker(&mut self, t: Tid) -> &mut Worker {
@@ -227,13 +307,25 @@ impl Case {
         let slot = match t { Tid::Prod(i) => &self.prods[i], Tid::Cons => &self.cons, Tid::Stop => &self.stop };
         slot.as_ref().map(|w| w.state).unwrap_or(WState::Idle)
     }
-    pub fn push_locked(&self) -> bool { self.push_lock.is_locked() }
+    pub fn push_locked(&self) -> bool {
+        match (&self.push_lock, &self.sh.pipe) {
+            (Some(l), _) => l.is_locked(),
+            (None, Some(p)) => p.sender.upgrade().map(|s| s.verif_push_locked()).unwrap_or(false),
+            _ => false,
+        }
+    }
+    pub fn pop_locked(&self) -> bool {
+        match (&self.sh.track, &self.sh.pipe) { (Some(t), _) => t.verif_pop_locked(), (None, Some(p)) => p.pop_lock.is_locked(), _ => false }
+    }
+    fn indices(&self) -> (usize, usize) {
+        match (&self.sh.track, &self.sh.pipe) { (Some(t), _) => t.verif_queue().verif_indices(), (None, Some(p)) => p.queue.verif_indices(), _ => (0, 0) }
+    }
 
     pub fn avail(&self, t: Tid) -> Avail {
         if let Tid::Prod(i) = t { if i >= MAX_PROD || (self.handle[i] != 1 && self.state(t) == WState::Idle) { return Avail::NoHandle; } }
         match self.state(t) {
             WState::Idle => Avail::NeedsOp,
-            WState::Parked(p) if p == hook::point::RECV_LOCK_POP && self.sh.track.verif_pop_locked() => Avail::Blocked,
+            WState::Parked(p) if p == hook::point::RECV_LOCK_POP && self.pop_locked() => Avail::Blocked,
             WState::Parked(p) if p == hook::point::SRC_LOCK_PUSH && self.push_locked() => Avail::Blocked,
             WState::Parked(_) => Avail::Runnable,
             WState::Pending => if self.sh.woken.load(Ordering::SeqCst) { Avail::Runnable } else { Avail::Blocked },
@@ -261,7 +353,7 @@ impl Case {
     pub fn step(&mut self, l: &Label) -> String {
         let mut t = self.step_inner(l);
         if self.push_locked() { t.push('+'); }
-        if self.sh.track.verif_pop_locked() { t.push('*'); }
+        if self.pop_locked() { t.push('*'); }
         t
     }
 
@@ -279,6 +371,10 @@ impl Case {
                 }
                 if let (Tid::Prod(i), Op::DropSrc) = (l.tid, &op) { self.handle[i] = 2; }
                 if op == Op::Stop { self.stop_called = true; }
+                if self.is_pipe() && matches!(op, Op::CloneTo(_) | Op::Stop) { return "-".into(); }
+                if self.is_pipe() && self.recv_dropped && matches!(op, Op::Recv | Op::DropRecv) { return "-".into(); }
+                if !self.is_pipe() && op == Op::DropRecv { return "-".into(); }
+                if op == Op::DropRecv { self.recv_dropped = true; }
                 let _ = self.worker(l.tid).tx.send(Cmd::Start(op));
                 self.await_event(l.tid)
             }
@@ -292,9 +388,9 @@ impl Case {
 
     /// Observable shared state (compared with the model after the last label).
     pub fn end_token(&self) -> String {
-        let (h, t) = self.sh.track.verif_queue().verif_indices();
-        let (cl, en) = self.sh.track.verif_flags();
-        format!("end:h={h},t={t},cl={},en={},pl={}", cl as u8, en as u8, self.sh.track.verif_pop_locked() as u8)
+        let (h, t) = self.indices();
+        let (cl, en) = self.flags();
+        format!("end:h={h},t={t},cl={},en={},pl={}", cl as u8, en as u8, self.pop_locked() as u8)
     }
 
     pub fn consumer_stuck(&self) -> bool {
@@ -307,8 +403,12 @@ impl Case {
     pub fn all_idle(&self) -> bool {
         (0..MAX_PROD).all(|i| self.state(Tid::Prod(i)) == WState::Idle) && self.state(Tid::Cons) == WState::Idle && self.stopper_idle()
     }
-    pub fn queue_len(&self) -> usize { self.sh.track.verif_queue().len() }
-    pub fn flags(&self) -> (bool, bool) { self.sh.track.verif_flags() }
+    /// number of queued samples from the raw indices (`len()` saturates across the index wrap-around)
+    pub fn queue_len(&self) -> usize { let (h, t) = self.indices(); t.wrapping_sub(h) }
+    pub fn flags(&self) -> (bool, bool) {
+        match (&self.sh.track, &self.sh.pipe) { (Some(t), _) => t.verif_flags(), (None, Some(p)) => (p.closed.load(Ordering::SeqCst), false), _ => (false, false) }
+    }
+    pub fn is_pipe(&self) -> bool { self.sh.pipe.is_some() }
     pub fn received(&self) -> Vec<Result<(u64, u64), String>> { self.sh.received.lock().unwrap().clone() }
 
     /// Let every thread run on without control, join them, drop everything; returns
@@ -330,6 +430,7 @@ impl Case {
         }
         let reg = self.sh.reg.clone();
         self.sh.mailbox.lock().unwrap().iter_mut().for_each(|s| { s.take(); });
+        if let Some(p) = &self.sh.pipe { p.senders.lock().unwrap().iter_mut().for_each(|s| { s.take(); }); p.receiver.lock().unwrap().take(); }
         let sh = self.sh.clone();
         drop(self);
         if clean {
